@@ -65,6 +65,14 @@ func NewSession(o SessionOpts) *Session {
 	cfg.Proxy = s.EP.ProxyURL(o.CtxAware)
 	cfg.Flood = o.Flood
 	cfg.PingFreq = o.PingFreq
+	// Config.Timeout only bounds the dial ("0 = wait indefinitely"); nothing any property states depends on it, so
+	// it is drawn per session: the default (1m), 0 and 5m
+	switch sessionRand().Intn(4) {
+	case 0:
+		cfg.Timeout = 0
+	case 1:
+		cfg.Timeout = 5 * time.Minute
+	}
 	if o.Mutate != nil {
 		o.Mutate(cfg)
 	}
